@@ -169,6 +169,22 @@ var c12Scenarios = map[string]c12Scenario{
 		}
 		return err
 	}, func(b, l afero.Fs) afero.Fs { return afero.NewCacheOnReadFs(b, l, time.Hour) }},
+	// the same with flags that create: whatever goes wrong around the copy, the cache must not be left with a
+	// fresh empty file for a non-empty base file
+	"cache-openfile-create": {"cache-openfile-create", func(b, l afero.Fs, p string) error {
+		f, err := afero.NewCacheOnReadFs(b, l, time.Hour).OpenFile(p, os.O_RDWR|os.O_CREATE, 0o644)
+		if f != nil {
+			f.Close()
+		}
+		return err
+	}, func(b, l afero.Fs) afero.Fs { return afero.NewCacheOnReadFs(b, l, time.Hour) }},
+	"cow-openfile-create": {"cow-openfile-create", func(b, l afero.Fs, p string) error {
+		f, err := afero.NewCopyOnWriteFs(b, l).OpenFile(p, os.O_WRONLY|os.O_CREATE, 0o644)
+		if f != nil {
+			f.Close()
+		}
+		return err
+	}, func(b, l afero.Fs) afero.Fs { return afero.NewCopyOnWriteFs(b, l) }},
 	"cache-openfile": {"cache-openfile", func(b, l afero.Fs, p string) error {
 		f, err := afero.NewCacheOnReadFs(b, l, time.Hour).OpenFile(p, os.O_RDONLY, 0)
 		if f != nil {
@@ -304,7 +320,9 @@ func c12Oracle(c corr.Case, impl []string) (string, int) {
 		if ok && entry != "full" && !strings.Contains(impl[i], "#OUTSIDE") {
 			return "the copy reported success but the layer does not hold the complete file: " + f[0], i
 		}
-		if k := strings.Index(impl[i], "#NEXT-READ"); k >= 0 {
+		// (a fault in the caller's own calls before the copy is decided or after it has completed is not a fault
+		// "during a copy-up": only the state of the layer entry is judged for those)
+		if k := strings.Index(impl[i], "#NEXT-READ"); k >= 0 && !strings.Contains(impl[i], "#OUTSIDE") {
 			return "the next fault-free read does not return the base content: " + impl[i][k:], i
 		}
 	}
